@@ -6,6 +6,7 @@
 #include "stir/recon_buildblock/BinNormalisationFromProjData.h"
 #include "stir/recon_buildblock/TrivialBinNormalisation.h"
 #include "stir/recon_buildblock/ChainedBinNormalisation.h"
+#include "scatter_common.h"
 
 namespace c18 {
 
@@ -174,6 +175,38 @@ scen_norm_impl(const sim::Plan& p, int threads, const sc::Params& sp)
   std::vector<float> v2(data->size_all());
   data->copy_to(v2.begin());
   o.v.insert(o.v.end(), v2.begin(), v2.end());
+  return o;
+}
+
+// single-scatter simulation: parallel loop over the bins of a view, two atomic-read/write caches, detection-point vector
+// behind a named critical.  Every output bin is written by one iteration and cached values are the floats a recomputation
+// gives, so the output must be bitwise that of one thread.
+inline Outcome
+scen_scatter_impl(const sim::Plan& p0, int threads, const sc::Params& sp)
+{
+  sim::Plan p = p0;
+  if (p.c("scat_small", 0))
+    {
+      p.cfg["ndet"] = std::min<long>(12, p.c("ndet", 8));
+      p.cfg["nrings"] = 2;
+    }
+  scat::State st;
+  st.cache = p.c("cache", 1) != 0;
+  st.sp = (int)p.c("sp", -1);
+  st.sample_time = 12345;
+  st.tmpl = (int)(p.c("data_seed", 0) % 8);
+  st.act = (int)(p.c("data_seed", 0) % 7);
+  st.dens = (int)(p.c("data_seed", 0) % 6);
+  sim::io::set_time(12345);
+  scat::ProbeSSS S;
+  sc::configure(sp);
+  set_num_threads(threads);
+  shared_ptr<ProjDataInMemory> out = scat::configure_fresh(S, p, st);
+  S.process_data();
+  if (p.c("order", 0) % 2)
+    S.process_data(); // second pass with warm caches
+  Outcome o;
+  o.v = scat::values(*out);
   return o;
 }
 
